@@ -125,7 +125,11 @@ impl<S: Stream + Unpin> Stream for MergeUnbounded<S> {
             return Poll::Ready(None);
         }
 
-        for _ in 0..groups.len() {
+        // every group is visited once per call; a drained group that is discarded on the way
+        // does not count as a visit
+        let mut visits = groups.len();
+        while visits > 0 {
+            visits -= 1;
             if *poll_next >= groups.len() {
                 *poll_next = 0;
             }
@@ -135,6 +139,9 @@ impl<S: Stream + Unpin> Stream for MergeUnbounded<S> {
             let poll = Pin::new(&mut groups[*poll_next]).poll_next(cx);
             match poll {
                 Poll::Ready(Some(x)) => {
+                    // start the next call with the next group, so that a group which always
+                    // has something ready cannot starve the others
+                    *poll_next += 1;
                     return Poll::Ready(Some(x));
                 }
                 Poll::Ready(None) => {
@@ -156,6 +163,8 @@ impl<S: Stream + Unpin> Stream for MergeUnbounded<S> {
                         crate::verif::ev(crate::verif::kind::GROUP_REINSERT, group.streams.shared.verif_header(), *poll_next, groups.len());
                         groups.push(group);
                         *poll_next = 0;
+                    } else {
+                        visits += 1;
                     }
                 }
                 Poll::Pending => {
